@@ -2,6 +2,7 @@
 from .common import *
 from .macros import *
 from . import macros as mac
+from . import roles
 from .lifecycle import *
 
 PER_TARGET = True      # every rule below looks at one target configuration at a time (check.py may fork one worker per target)
@@ -27,6 +28,7 @@ def run(ck, models, tier, ws):
 
 def run_one(ck, tm, tier, ws):
     hm = mac.get(ws, tm.facts, tier)
+    vtypes = roles.verifier_types(tm.facts)          # the verifier type(s), found by role
     n_arms = 0
     for mod, d in hm.modules("fake"):
         arm = d["arm"]
@@ -85,16 +87,16 @@ def run_one(ck, tm, tier, ws):
             r = v.ret
             if isinstance(r, Tup):
                 for x in r.elems:
-                    if isinstance(x, Adt) and x.path.endswith("CallCountVerifier"):
+                    if isinstance(x, Adt) and any(x.path.split("::")[-1] == vt.split("::")[-1] for vt in vtypes):
                         ver = x
-            ok = ver is not None and ver.vname == "WithCount" and static_of(ver.fields[0]) in counters and len(counters) == 1 \
+            ok = ver is not None and len(ver.fields) >= 2 and static_of(ver.fields[0]) in counters and len(counters) == 1 \
                 and isinstance(ver.fields[1], Int) and ver.fields[1].is_const() and ver.fields[1].cval() == hm_times()
             ck.ob("R6.4", "%s/verifier-same-counter-and-budget" % key, tm.target, ok,
                   "verifier = %s; fake increments %s" % (ver, sorted(c for c in counters if c)))
     ck.floor("R6.1", "times-arms-analysed", n_arms, 28)
     # ---------------- R6.5 / R6.6 on the library
     for adt, p in tm.drop_impls():
-        if not adt.endswith("CallCountVerifier"):
+        if adt not in vtypes:
             continue
         vs = tm.variants(p)
         for f in tm.machines[(p, None)].entered:
@@ -129,10 +131,10 @@ def run_one(ck, tm, tier, ws):
     nst = 0
     for p in tm.install_roots():
         f = tm.facts.fns[p]
-        if not any("CallCountVerifier" in i["s"] for i in f["inputs"]):
+        if not any(roles.mentions_type(i, vtypes) for i in f["inputs"]):
             continue
         for v in tm.variants(p):
-            pv = [e for e in v.trace if e.kind == "vec_push" and isinstance(e.args[1], Opaque) and e.args[1].ty and "CallCountVerifier" in e.args[1].ty.get("s", "")]
+            pv = [e for e in v.trace if e.kind == "vec_push" and isinstance(e.args[1], Opaque) and e.args[1].ty and roles.mentions_type(e.args[1].ty, vtypes)]
             eff = [e for e in v.trace if is_effect(e)]
             if v.status == "returned" or eff:
                 nst += 1
